@@ -674,3 +674,89 @@ func TestC06_Errors(t *testing.T) {
 		g.NonTrivial()
 	})
 }
+
+// TestC06_Misconfigured: "the stateful object never returns a threshold signature that fails verification under the
+// group key" has no precondition on how the object was configured or how the caller treats its buffers.  The object
+// is built with a threshold below the degree of the sharing polynomial, or with a group key that does not belong to
+// the public key shares, or the caller overwrites the buffer of a share after the object accepted it; every share is
+// individually valid at the time it is added (VerifyAndAdd answers true).  Whatever ThresholdSignature() returns
+// without an error has to verify under the group key the object was given.
+func TestC06_Misconfigured(t *testing.T) {
+	gen.Run(t, "C06", func(g *gen.G) {
+		n := g.Int("n", 3, 10)
+		th := g.Int("t", 2, n-1)
+		s := c06Dealer(g, n, th, g.Bytes("seed", 32, 32), g.Bytes("msg", 0, 30), "c06", 0)
+		gpk, objT := s.gpk, s.t
+		kind := g.Int("misconfiguration", 0, 2)
+		name := ""
+		switch kind {
+		case 0:
+			objT, name = g.Int("lowerThreshold", 1, th-1), "thresholdBelowPolynomialDegree"
+		case 1:
+			x, _ := drawScalar(g, "otherGroupKey")
+			if x.Cmp(s.secret) == 0 {
+				x = new(big.Int).Add(x, one)
+			}
+			gpk, name = decodeSK(g, x).PublicKey(), "foreignGroupKey"
+		default:
+			name = "shareBufferOverwrittenAfterAdd"
+		}
+		var ins crypto.ThresholdSignatureInspector
+		var err error
+		participant := g.Bool("participant")
+		me := g.Pick("me", n)
+		if participant {
+			ins, err = crypto.NewBLSThresholdSignatureParticipant(gpk, s.pks, objT, me, s.sks[me], s.msg, s.tag)
+		} else {
+			ins, err = crypto.NewBLSThresholdSignatureInspector(gpk, s.pks, objT, s.msg, s.tag)
+		}
+		if err != nil {
+			g.Fatalf("constructor (%s) failed: %v", name, err)
+		}
+		signers, _ := drawSigners(g, n, objT+1)
+		trusted := g.Chance("someTrustedAdd", 1, 4)
+		var kept [][]byte
+		for _, j := range signers {
+			buf := append([]byte{}, s.share(g, j)...)
+			kept = append(kept, buf)
+			if trusted && g.Bool("trustedAdd") {
+				if _, err := ins.TrustedAdd(j, buf); err != nil {
+					g.Fatalf("TrustedAdd(%d, valid share) failed: %v", j, err)
+				}
+				continue
+			}
+			v, _, err := ins.VerifyAndAdd(j, buf)
+			if err != nil || !v {
+				g.Fatalf("VerifyAndAdd(%d, valid share) = (%v, %v)", j, v, err)
+			}
+		}
+		if kind == 2 {
+			at := g.Pick("overwrite", len(kept))
+			other := s.share(g, (signers[at]+1)%n) // the caller reads the next share into the same buffer
+			if g.Bool("overwriteWithZeros") {
+				other = make([]byte, len(kept[at]))
+			}
+			copy(kept[at], other)
+		}
+		if !ins.EnoughShares() {
+			g.Fatalf("EnoughShares() false after %d shares with threshold %d", len(signers), objT)
+		}
+		for call := 0; call < 2; call++ {
+			sig, err := ins.ThresholdSignature()
+			if err != nil {
+				if sig != nil {
+					g.Fatalf("ThresholdSignature() returned bytes together with the error %v", err)
+				}
+				g.Class("misconfigured:" + name + ":error")
+				continue
+			}
+			ok, verr := gpk.Verify(sig, s.msg, crypto.NewExpandMsgXOFKMAC128(s.tag))
+			if verr != nil || !ok {
+				g.Fatalf("ThresholdSignature() (%s, call %d, participant object: %v, n=%d, dealt threshold %d, object threshold %d, signers %v) returned %x without an error, and that does not verify under the object's group key (%v, %v)",
+					name, call+1, participant, n, th, objT, signers, []byte(sig), ok, verr)
+			}
+			g.Class("misconfigured:" + name + ":validSignature")
+		}
+		g.NonTrivial()
+	})
+}
